@@ -362,6 +362,33 @@ where
                 if !ok {
                     out.violation(format!("{nm}: ColMatrix::evaluate_columns_over differs from Horner evaluation"), d());
                 }
+                // the same over a domain built from an AIR whose constraint-evaluation domain is SMALLER than its LDE
+                // domain (degree-2 constraints: blowup 2 for constraint evaluation) - the two blowups must not be mixed up
+                if blowup >= 4 && n * blowup <= 4096 && n >= 8 {
+                    let opts = air::ProofOptions::new(1, blowup, 0, air::FieldExtension::None, 2, 0);
+                    let mock = <MockAir<Bf<E>> as air::Air>::new(air::TraceInfo::new(1, n), (), opts);
+                    let dom = StarkDomain::new(&mock);
+                    let goff = <Bf<E> as Fld>::int(&<Bf<E> as math::StarkField>::GENERATOR);
+                    let rd = ref_domain::<Bf<E>>(n * blowup, goff);
+                    let ev = polys.evaluate_columns_over(&dom);
+                    let mut ok = ev.num_rows() == n * blowup && ev.num_cols() == ncols && dom.ce_domain_size() < dom.lde_domain_size();
+                    if ok {
+                        for c in 0..ncols {
+                            for r in (0..n * blowup).step_by(5) {
+                                if ev.get(c, r).to_ref() != ctx.poly_eval(&cols_ref[c], &[rd[r], 0, 0]) {
+                                    ok = false;
+                                }
+                            }
+                        }
+                    }
+                    if !ok {
+                        out.violation(format!("{nm}: ColMatrix::evaluate_columns_over differs from Horner evaluation over the LDE domain of an AIR-built StarkDomain"), d());
+                    }
+                    let m = RowMatrix::evaluate_polys_over::<8>(&polys, &dom);
+                    if m.num_rows() != n * blowup {
+                        out.violation(format!("{nm}: RowMatrix::evaluate_polys_over has the wrong number of rows over an AIR-built StarkDomain"), d());
+                    }
+                }
                 // interpolation of columns inverts evaluation over the trace domain
                 let td = ref_domain::<Bf<E>>(n, 1);
                 let evals: Vec<Vec<E>> = cols_ref.iter().map(|c| from_refs::<E>(&td.iter().map(|x| ctx.poly_eval(c, &[*x, 0, 0])).collect::<Vec<_>>())).collect();
@@ -386,6 +413,26 @@ where
         },
         move |idx| json!({"columns": w2[(idx / ns) as usize], "segment_width": s2[(idx % ns) as usize]}),
     )]
+}
+
+/// minimal AIR: one column, one degree-2 transition constraint (constraint-evaluation blowup 2), one assertion
+struct MockAir<B: math::StarkField>(air::AirContext<B>);
+
+impl<B: math::StarkField + math::ExtensibleField<2> + math::ExtensibleField<3>> air::Air for MockAir<B> {
+    type BaseField = B;
+    type PublicInputs = ();
+    type GkrProof = ();
+    type GkrVerifier = ();
+    fn new(trace_info: air::TraceInfo, _pub_inputs: (), options: air::ProofOptions) -> Self {
+        MockAir(air::AirContext::new(trace_info, vec![air::TransitionConstraintDegree::new(2)], 1, options))
+    }
+    fn context(&self) -> &air::AirContext<B> {
+        &self.0
+    }
+    fn evaluate_transition<E: FieldElement<BaseField = B>>(&self, _frame: &air::EvaluationFrame<E>, _periodic_values: &[E], _result: &mut [E]) {}
+    fn get_assertions(&self) -> Vec<air::Assertion<B>> {
+        vec![]
+    }
 }
 
 fn main() {
